@@ -4,6 +4,7 @@ import (
 	"testing"
 	"time"
 
+	"github.com/postalsys/muti-metroo/internal/verifrt/simrt"
 	"github.com/postalsys/muti-metroo/internal/verifsim/hc"
 )
 
@@ -38,6 +39,10 @@ func run(prop string) {
 	case "C06":
 		runC06()
 	case "C03", "C04", "C07", "C16", "C17":
+		if prop == "C16" && simrt.Chance(1, 8, "udp-association-churn") {
+			runUDPAssociationChurn()
+			return
+		}
 		runTunnels(prop)
 	default:
 		panic("W-mesh does not decide " + prop)
